@@ -81,6 +81,11 @@ func VerifH_c16_lifecycle() {
 	vFieldLogBegin("disconnect", cs)
 	cs.unregister()
 	vFieldLogEnd()
+	// connection set-up: what it does to shared state (the client table, the id
+	// counter, the statistics) is logged; its own fields are not yet shared
+	vFieldLogBegin("connect", nil)
+	vNewClientOn(disp)
+	vFieldLogEnd()
 }
 
 // VerifH_c16_saver: the periodic saver (test-server.go: dss.save once a
